@@ -83,8 +83,36 @@ fn dispatch_replay(path: &str, rf: &ReplayFile) -> Option<i32> {
     None
 }
 
+/// Process-global lazies in the code under test (signature database, lazy_static tables, tracing
+/// call sites) are initialised by whichever run touches them first; which run that is depends on
+/// the worker count. Touch them all once, before any run, so that per-run measurements (C11's
+/// allocation counts in particular) are a function of the run alone.
+#[cfg(not(huginn_net_verif_sched))]
+fn warm_up() {
+    use conn::{ConnKind, ConnOpts};
+    let mut r = rng::Rng::new(1);
+    let o = ConnOpts::default();
+    for (i, ck) in [ConnKind::Http1, ConnKind::Http2, ConnKind::Tls, ConnKind::TcpOnly, ConnKind::Garbage].iter().enumerate() {
+        let c = conn::build(&mut r, *ck, pkt::Endpoint::v4(10, 250, 0, 1, 40000 + i as u16), pkt::Endpoint::v4(10, 250, 0, 2, 80), &o);
+        let order = vec![0usize; c.steps.len()];
+        let trace = conn::to_trace(&[c], &order);
+        for k in sut::Kind::ALL {
+            huginn_net_verif_rt::clock::arm(1_700_000_000_000);
+            let _ = sut::run_deliver(&sut::SutCfg::new(k, 64), &trace);
+            let _ = sut::run_loop(&sut::SutCfg::new(k, 64), &trace);
+        }
+    }
+    huginn_net_verif_rt::clock::disarm();
+}
+
+#[cfg(huginn_net_verif_sched)]
+fn warm_up() {
+    let _ = sut::db();
+}
+
 fn main() {
     runner::install_panic_hook();
+    warm_up();
     let args: Vec<String> = std::env::args().collect();
     let cmd = args.get(1).map(|s| s.as_str()).unwrap_or("");
     let mut tier = match std::env::var("VERIF_TIER").as_deref() {
